@@ -598,7 +598,7 @@ func init() { runners["C14"] = runC14 }
 func TestC14(t *testing.T) {
 	w := explore.NewWorker("C14")
 	defer w.Finish()
-	w.SetRule("fault/timing grid on the virtual clock (resend delay 1 s): one Query with NumTries 1..3 x reply instant x ctx-cancel instant x Close instant (each in {never, right after the first send, d/2, k*d -/+ 1 ns}) x scripted socket write error on send i x a socket write stuck for half an interval (with reply / cancel / Close inside that window) x rate-limit options with a full or an empty limiter; every API call (Ping, FindNode, GetPeers, Get, Put) and traversal (Bootstrap, BootstrapContext, AnnounceTraversal with and without announce and with Close / StopTraversing, getput.Get mutable/immutable, getput.Put) under 9 start conditions (no starting nodes, nil resolver, resolver error, one silent node, one answering node, 3-node network with a silent member, two nodes one silent, a node holding the immutable / the mutable item next to a silent one) x stop instant (never, 0, 0.5 s, 2.5 s), failing starts repeated 3 times in one server; oracle: the call returns, with the cause whose decisive instant comes first, at most NumTries datagrams, no pending transaction, no goroutine with a frame in the module besides the serve loop, and after Close a new query fails without writing")
+	w.SetRule("fault/timing grid on the virtual clock (resend delay 1 s): one Query with NumTries 1..3 (thorough 1..4) x reply instant x ctx-cancel instant x Close instant (each in {never, right after the first send, d/2, k*d -/+ 1 ns}) x scripted socket write error on send i x a socket write stuck for half an interval (with reply / cancel / Close inside that window) x rate-limit options with a full or an empty limiter; every API call (Ping, FindNode, GetPeers, Get, Put) and traversal (Bootstrap, BootstrapContext, AnnounceTraversal with and without announce and with Close / StopTraversing, getput.Get mutable/immutable, getput.Put) under 9 start conditions (no starting nodes, nil resolver, resolver error, one silent node, one answering node, 3-node network with a silent member, two nodes one silent, a node holding the immutable / the mutable item next to a silent one) x stop instant (never, 0, 0.5 s, 2.5 s), failing starts repeated 3 times in one server; oracle: the call returns, with the cause whose decisive instant comes first, at most NumTries datagrams, no pending transaction, no goroutine with a frame in the module besides the serve loop, and after Close a new query fails without writing")
 	idx := 0
 	if c14SyncTier != nil {
 		c14SyncTier(t, w, &idx)
@@ -622,7 +622,7 @@ func TestC14(t *testing.T) {
 	// part A
 	ns := []int{1, 2}
 	if w.Thorough() {
-		ns = []int{1, 2, 3}
+		ns = []int{1, 2, 3, 4}
 	}
 	for _, n := range ns {
 		grid := c14Grid(n)
